@@ -7,7 +7,7 @@ use crate::flowgen;
 use hv_common::{read_lines, Args, Recorder, Rng};
 use std::collections::BTreeMap;
 
-pub const OPS: &[&str] = &["atomic_sum", "keyed_counter", "plain_sum"];
+pub const OPS: &[&str] = &["atomic_sum", "keyed_counter", "atomic_lww", "plain_sum", "keyed_lww", "atomic_max"];
 
 fn split_two<'a>(ticks: &[&'a str]) -> Option<Vec<(&'a str, &'a str)>> {
     ticks.iter().map(|s| s.split_once('/')).collect()
@@ -50,6 +50,82 @@ pub fn exec(rec: &mut Recorder, op: &str, field: &str, line: &str) -> Option<Str
                 rec.check(acks_all == fed_writes, "c34-acks-not-the-writes@atomic_sum", &format!("{line}: acks {:?} writes {:?}", acks_all, fed_writes));
             }
             r.iter().map(|(a, p)| format!("acks={};resp={}", show_ints(a), show_pairs(p))).collect::<Vec<_>>().join("|")
+        }
+        "atomic_lww" | "atomic_max" => {
+            // reduce-style register: a response is `(read id, Option<register value>)`
+            let t: Vec<(Vec<i32>, Vec<i32>)> = h.iter().map(|(w, r)| Some((parse_ints(r)?, parse_ints(w)?))).collect::<Option<_>>()?;
+            let r = if op == "atomic_lww" { flowgen::run_c34_atomic_lww(&t) } else { flowgen::run_c34_atomic_max(&t) };
+            let Ok(r) = r else { return Some("panic".into()) };
+            let mut fed_writes: Vec<i32> = vec![];
+            let mut acks_all: Vec<i32> = vec![]; // acknowledgements released in earlier ticks
+            for (i, (acks, resp)) in r.iter().enumerate() {
+                fed_writes.extend(&t[i].1);
+                let a = acks_all.len().min(fed_writes.len());
+                rec.check(resp.len() == t[i].0.len(), &format!("c34-read-not-answered@{op}"), &format!("{line}: tick {i} reads {:?} responses {:?}", t[i].0, resp));
+                for (id, val) in resp {
+                    match val {
+                        None => rec.check(a == 0, &format!("c34-ack-not-visible@{op}"),
+                            &format!("{line}: read {id} in tick {i} sees an EMPTY register but writes {:?} were acknowledged before", &acks_all)),
+                        Some(v) if op == "atomic_lww" => {
+                            // the value of the last acknowledged write or of a later (already fed) one
+                            let lo = a.saturating_sub(1);
+                            rec.check(fed_writes.contains(v), "c34-read-from-the-future@atomic_lww", &format!("{line}: read {id} sees {v}, fed {:?}", fed_writes));
+                            rec.check(!fed_writes.contains(v) || fed_writes[lo..].contains(v), "c34-ack-not-visible@atomic_lww",
+                                &format!("{line}: read {id} in tick {i} sees {v}, older than the last write acknowledged before ({:?})", acks_all.last()));
+                        }
+                        Some(v) => {
+                            let need = acks_all.iter().max();
+                            rec.check(need.map_or(true, |m| v >= m), "c34-ack-not-visible@atomic_max",
+                                &format!("{line}: read {id} in tick {i} sees {v} but {need:?} was acknowledged before"));
+                            rec.check(fed_writes.contains(v), "c34-read-from-the-future@atomic_max", &format!("{line}: read {id} sees {v}, fed {:?}", fed_writes));
+                        }
+                    }
+                }
+                acks_all.extend(acks);
+            }
+            rec.check(acks_all == fed_writes, &format!("c34-acks-not-the-writes@{op}"), &format!("{line}: acks {:?} writes {:?}", acks_all, fed_writes));
+            r.iter().map(|(a, p)| format!("acks={};resp={}", show_ints(a),
+                if p.is_empty() { "-".to_string() } else { p.iter().map(|(id, v)| match v { Some(v) => format!("{id}:{v}"), None => format!("{id}:none") }).collect::<Vec<_>>().join(",") }
+            )).collect::<Vec<_>>().join("|")
+        }
+        "keyed_lww" => {
+            // protocol writes (key:value) / gets (client:key) ; generated parameter order (gets, incs)
+            let t: Vec<(Vec<(i32, i32)>, Vec<(i32, i32)>)> = h.iter().map(|(w, r)| Some((parse_pairs(r)?, parse_pairs(w)?))).collect::<Option<_>>()?;
+            let Ok(r) = flowgen::run_c34_keyed_lww(&t) else { return Some("panic".into()) };
+            let mut acked_before: BTreeMap<i32, usize> = BTreeMap::new(); // per key: number of acknowledged writes
+            let mut fed: BTreeMap<i32, Vec<i32>> = BTreeMap::new(); // per key: values fed, in order
+            let mut acks_all: Vec<(i32, i32)> = vec![];
+            let mut fed_all: Vec<(i32, i32)> = vec![];
+            for (i, (acks, resp)) in r.iter().enumerate() {
+                for (k, v) in &t[i].1 { fed.entry(*k).or_default().push(*v); }
+                fed_all.extend(&t[i].1);
+                for (client, key) in &t[i].0 {
+                    // a get of a key with an acknowledged write must be answered (the join drops it if the register is empty)
+                    let need = acked_before.get(key).copied().unwrap_or(0);
+                    let answered = resp.iter().any(|(c, (k, _))| c == client && k == key);
+                    rec.check(need == 0 || answered, "c34-ack-not-visible@keyed_lww",
+                        &format!("{line}: get of client {client} for key {key} in tick {i} finds NO register but {need} writes to it were acknowledged before"));
+                }
+                for (client, (key, val)) in resp {
+                    let need = acked_before.get(key).copied().unwrap_or(0);
+                    let empty = vec![];
+                    let f = fed.get(key).unwrap_or(&empty);
+                    let lo = need.min(f.len()).saturating_sub(1);
+                    rec.check(f.contains(val), "c34-read-from-the-future@keyed_lww", &format!("{line}: key {key} value {val}"));
+                    rec.check(!f.contains(val) || f[lo..].contains(val), "c34-ack-not-visible@keyed_lww",
+                        &format!("{line}: get of client {client} for key {key} in tick {i} sees {val}, older than the last of the {need} writes acknowledged before"));
+                }
+                for (k, _) in acks { *acked_before.entry(*k).or_default() += 1; }
+                acks_all.extend(acks);
+            }
+            acks_all.sort(); fed_all.sort();
+            rec.check(acks_all == fed_all, "c34-acks-not-the-writes@keyed_lww", &format!("{line}"));
+            r.iter().map(|(a, p)| {
+                let mut v: Vec<(i32, i32, i32)> = p.iter().map(|(c, (k, x))| (*c, *k, *x)).collect();
+                v.sort();
+                let rs = if v.is_empty() { "-".to_string() } else { v.iter().map(|(a, b, c)| format!("{a}:{b}:{c}")).collect::<Vec<_>>().join(",") };
+                format!("acks={};resp={}", show_sorted_pairs(a), rs)
+            }).collect::<Vec<_>>().join("|")
         }
         "keyed_counter" => {
             // protocol incs/gets ; generated parameter order (gets, incs)
@@ -99,16 +175,26 @@ fn do_line(rec: &mut Recorder, op: &str, line: &str) {
 }
 
 fn gen_line(rng: &mut Rng, op: &str, thorough: bool) -> String {
-    let nt = rng.range(1, if thorough { 9 } else { 6 });
-    let f: Vec<String> = (0..nt).map(|_| {
-        let nw = if rng.chance(1, 3) { 0 } else { rng.range(0, 3) };
-        let nr = if rng.chance(1, 3) { 0 } else { rng.range(0, 3) };
-        if op == "keyed_counter" {
-            let w: Vec<(i32, i32)> = (0..nw).map(|_| (rng.range(0, 2) as i32, rng.range(0, 2) as i32)).collect();
+    let keyed = op == "keyed_counter" || op == "keyed_lww";
+    let reduce_style = matches!(op, "atomic_lww" | "atomic_max" | "keyed_lww");
+    // reduce-style registers: half of the runs have >= 3 ticks with the writes in the early ticks only and
+    // reads (without new writes) in the later ticks - the state has to survive the tick boundary
+    let early_writes = reduce_style && rng.chance(1, 2);
+    let nt = if early_writes { rng.range(3, if thorough { 9 } else { 6 }) } else { rng.range(1, if thorough { 9 } else { 6 }) };
+    let wt = if early_writes { rng.range(1, nt - 1) } else { nt };
+    let f: Vec<String> = (0..nt).map(|ti| {
+        let mut nw = if rng.chance(1, 3) { 0 } else { rng.range(0, 3) };
+        let mut nr = if rng.chance(1, 3) { 0 } else { rng.range(0, 3) };
+        if early_writes {
+            if ti >= wt { nw = 0; if nr == 0 && (ti + 1 == nt || rng.chance(1, 2)) { nr = 1; } }
+            else if ti == 0 && nw == 0 { nw = 1; }
+        }
+        if keyed {
+            let w: Vec<(i32, i32)> = (0..nw).map(|_| (rng.range(0, 2) as i32, rng.range(0, if op == "keyed_lww" { 7 } else { 2 }) as i32)).collect();
             let r: Vec<(i32, i32)> = (0..nr).map(|_| (rng.range(0, 2) as i32, rng.range(0, 3) as i32)).collect();
             format!("{}/{}", show_pairs(&w), show_pairs(&r))
         } else {
-            let w: Vec<i32> = (0..nw).map(|_| rng.range(0, 5) as i32).collect();
+            let w: Vec<i32> = (0..nw).map(|_| rng.range(0, if reduce_style { 9 } else { 5 }) as i32).collect();
             let r: Vec<i32> = (0..nr).map(|_| rng.range(0, 9) as i32).collect();
             format!("{}/{}", show_ints(&w), show_ints(&r))
         }
